@@ -17,6 +17,8 @@ SHAPES = {
     "zh": dict(ps=[("$p", "i64", "11"), ("a", "i64", "12")], asy=False, stamped=True),
     # a provided method (default body, `where Self: Sized`): Impl<T> must still reach the selected block
     "zp": dict(ps=[("a", "i64", "11")], asy=False, provided=True),
+    # the typed spelling of `&self` in the delegated trait
+    "zt": dict(ps=[("a", "i64", "11")], asy=False, typed_recv=True),
     "zs": dict(ps=[("s", "&str", '"s11"'), ("n", "i64", "12")], asy=False),
     "zb": dict(ps=[("s", "&'x str", '"s11"')], asy=False, borrowed=True),
     # the same with the named lifetime on the receiver / deps reference as well
@@ -65,7 +67,7 @@ def trait_method(x, i):
     if d.get("provided"):
         return "fn m%d(&self, a: i64) -> String where Self: Sized { ::std::format!(\"default{}\", a) }" % i
     ps = "".join(", %s: %s" % (p[0], p[1]) for p in d["ps"])
-    return "%sfn m%d(&self%s) -> String;" % ("async " if d["asy"] else "", i, ps)
+    return "%sfn m%d(%s%s) -> String;" % ("async " if d["asy"] else "", i, "self: &Self" if d.get("typed_recv") else "&self", ps)
 
 
 def impl_fn(s, x, i, target):
